@@ -308,7 +308,7 @@ func TestC05_Cross(t *testing.T) {
 			unknowns = append(unknowns, uni.Str("a"), uni.Str(""))
 		}
 	}
-	unknowns = append(unknowns, uni.JSONNum("1"), uni.JSONNum("1.0"), uni.JSONNum("5.5"), &uni.Node{T: uni.NamedScalar(uni.KString), S: "a"}, &uni.Node{T: uni.NamedScalar(uni.KInt), I: 1})
+	unknowns = append(unknowns, uni.NilIface(), uni.JSONNum("1"), uni.JSONNum("1.0"), uni.JSONNum("5.5"), &uni.Node{T: uni.NamedScalar(uni.KString), S: "a"}, &uni.Node{T: uni.NamedScalar(uni.KInt), I: 1})
 	n := 0
 	for lname, leaf := range leafs {
 		// wrap the leaf container at depth 0..3 under maps / structs / slices / interfaces / pointers
